@@ -13,6 +13,7 @@ Import-free (linked into the driver). Protocol kinds are answered by `handleLabe
 -/
 import Mahotas.Model.Basic
 import Mahotas.Model.C03
+import Mahotas.Model.C10Slic
 namespace Mahotas.C10Labeled
 open Mahotas
 
@@ -83,6 +84,6 @@ def handleLabeled (a : Args) : Option String :=
     let par := (a.ints "par").toArray
     let r := findAcc (a.nat "fuel" (par.size + 1)) par (a.int "i")
     some s!"ok={b2s (inRange par.size r.1 && r.2)} n={r.1.length} term={b2s r.2} sum={sI r.1}"
-  | _ => none
+  | _ => Mahotas.C10Slic.handleSlic a          -- the slic index model lives in its own file
 
 end Mahotas.C10Labeled
